@@ -342,6 +342,7 @@ def support_decls():
     """named types and target entities shared by every family schema"""
     types = [
         TypeDecl('color', ('enum', ['red', 'green', 'blue'])),
+        TypeDecl('finish', ('enum', ['matt_coated', 'matt', 'gloss_2', 'gloss', 'g'])),      # items that are proper prefixes of items declared BEFORE them
         TypeDecl('dint', Simple('INTEGER')),
         TypeDecl('dreal', Simple('REAL')),
         TypeDecl('dstr', Simple('STRING')),
@@ -360,6 +361,7 @@ def support_decls():
         TypeDecl('seldef', ('select', ['dint', 'dstr'])),
         TypeDecl('selent', ('select', ['tgt', 'tgt2'])),
         TypeDecl('selmix', ('select', ['color', 'dreal', 'tgt'])),
+        TypeDecl('selpfx', ('select', ['finish', 'dint'])),
         TypeDecl('selnest', ('select', ['seldef', 'tgt2'])),
         TypeDecl('selagg', ('select', ['lsti', 'dstr'])),
         TypeDecl('selnum', ('select', ['dnum', 'dbin', 'dbool', 'dlog'])),       # members based on NUMBER, BINARY, BOOLEAN, LOGICAL
@@ -387,10 +389,10 @@ def kinds(thorough=False, renamed=True):
     """(id, type expression) of the attribute kinds of family K"""
     S, N, A = Simple, Named, Aggr
     ks = [(s.lower()[:4] if s not in ('BINARY', 'BOOLEAN') else s.lower()[:3], S(s)) for s in SIMPLE]
-    ks += [('enum', N('color')), ('dint', N('dint')), ('dreal', N('dreal')), ('dstr', N('dstr')), ('dbool', N('dbool')),
+    ks += [('enum', N('color')), ('enumpfx', N('finish')), ('dint', N('dint')), ('dreal', N('dreal')), ('dstr', N('dstr')), ('dbool', N('dbool')),
            ('dlog', N('dlog')), ('dnum', N('dnum')), ('dbin', N('dbin')), ('ddint', N('ddint')),
            ('ref', N('tgt')), ('ref2', N('tgt2')),
-           ('seldef', N('seldef')), ('selent', N('selent')), ('selmix', N('selmix')), ('selnest', N('selnest')), ('selagg', N('selagg')), ('selnum', N('selnum')),
+           ('seldef', N('seldef')), ('selent', N('selent')), ('selmix', N('selmix')), ('selnest', N('selnest')), ('selagg', N('selagg')), ('selnum', N('selnum')), ('selpfx', N('selpfx')), ('list_enumpfx', A('LIST', 0, None, N('finish'))),
            ('dlsti', N('lsti')), ('dlste', N('lste')), ('dreal6', N('dreal6')),
            ('real6', S('REAL', 6)), ('list_real4', A('LIST', 1, None, S('REAL', 4)))]
     if renamed:
